@@ -31,9 +31,10 @@ TRUSTED_BASE = [
     "uuid.UUID(int=n) raises ValueError exactly when not 0 <= n < 2**128 (CPython Lib/uuid.py), uuid.UUID(str) "
     "is an oracle value passed to the model for uuid_from_str and assumed to reject every string shorter than 32 characters",
     "gen/C20_Consts.v: _ALPHABET, _SHORT_GUID_LEN and the exception classes caught around the decoder are read from ak/short_uuid.py by harness/props/c20.py:gen_consts (ast, fail-closed)",
-    "the translator harness/props/c20_translate.py (Python ast -> Gallina, ~1000 lines, NOT verified; self test "
+    "the shared translator harness/lib/pytranslate.py (Python ast -> Gallina, NOT verified; harness/props/c20_translate.py is the thin "
+    "C20 wrapper: ENTRY parameter types, the uuid externals, whole-module mode; self test "
     "`python -m harness.lib.pytranslate --selftest` compares ~4000 calls of 19 translated functions with CPython) and "
-    "coq/C20/PyLib.v, which gives each Python construct its meaning (int=Z, str=list of code points, floor // and %, negative "
+    "coq/Common/PyLib.v (+ the uuid_lib record of coq/C20/PyLib.v), which gives each Python construct its meaning (int=Z, str=list of code points, floor // and %, negative "
     "indices and clamped slices, IndexError/KeyError/ValueError/TypeError of [] / dict[] / .index / .rjust, dict = association list "
     "where a later key wins, short-circuit and/or, try/except as a match on the res monad, while = Fixpoint on fuel with Err Hang). "
     "Supported subset (anything else raises = proof step broken): module level = docstring, `import uuid`, NAME = pure expression, "
@@ -728,7 +729,7 @@ LEVEL_TEXT = ("Full: roundtrip, shape, injective, accept_iff, surjective_on_vali
               "arbitrary histories of calls (the model keeps no state, so these are corollaries; their content for the code "
               "lies in the correspondence on call sequences); alphabet, length and the caught exception classes are re-read "
               "from the source on every run, so NoDup alphabet, 2^128 <= 57^22 and 'KeyError is translated' are re-proved "
-              "against the current code.  Tie to the code, second kind: on every run harness/props/c20_translate.py translates the "
+              "against the current code.  Tie to the code, second kind: on every run harness/lib/pytranslate.py (through harness/props/c20_translate.py) translates the "
               "whole current ak/short_uuid.py into coq/gen/C20_Translated.v and coq/C20/TransEq.v proves, for all inputs, "
               "translated_str_to_int_eq, translated_int_to_str_eq (fuel >= log2 n + 2), translated_to_short_eq, "
               "translated_from_short_eq, translated_from_str_eq, translated_seq_eq (translated function = hand model) and hence "
@@ -740,8 +741,8 @@ LEVEL_TEXT = ("Full: roundtrip, shape, injective, accept_iff, surjective_on_vali
               "per run.  Tested only (correspondence + oracle, not proved about the hand model): that the implementation's answer to "
               "a call does not depend on earlier calls.  Price: a behaviour-preserving rewrite of the source that the equivalence "
               "proof does not survive (e.g. a structurally different loop) is reported as a broken obligation with no failing input.")
-LEVEL_NOTE = ("Trusted: Coq kernel + vm_compute; the translator c20_translate.py and the Python semantics written down in "
-              "coq/C20/PyLib.v (self-tested against CPython, not verified); the hand model's fidelity is no longer trusted for the "
+LEVEL_NOTE = ("Trusted: Coq kernel + vm_compute; the translator harness/lib/pytranslate.py (+ wrapper c20_translate.py) and the Python semantics written down in "
+              "coq/Common/PyLib.v (self-tested against CPython, not verified); the hand model's fidelity is no longer trusted for the "
               "source the translator accepts (it is proved equal to the translation), only the translator's; "
               "uuid.UUID(int=)/uuid.UUID(str)/.int of the standard library (record uuid_lib, instantiated by TransInst.mk_lib); "
               "the declared parameter types of the three API functions; the ast extractor and harness. "
